@@ -12,6 +12,7 @@ import (
 	"encoding/json"
 	"io"
 	"net/http"
+	"net/url"
 	"sort"
 	"strconv"
 	"strings"
@@ -63,6 +64,8 @@ type c06cParsed struct {
 	Scheme  string     `json:"scheme"`
 	Query   [][]string `json:"query"`
 	Headers [][]string `json:"headers"`
+	// url.ParseQuery(RawQuery) reports an error: some pair (';', bad escape) is not in Query
+	QueryErr bool `json:"query_err"`
 }
 
 type c06cTime struct {
@@ -129,8 +132,9 @@ func c06cSorted(m map[string][]string) [][]string {
 }
 
 func c06cParse(r *http.Request) *c06cParsed {
+	_, qe := url.ParseQuery(r.URL.RawQuery)
 	return &c06cParsed{Method: r.Method, EPath: r.URL.EscapedPath(), Opaque: r.URL.Opaque, Host: c06cS(r.Host), URLHost: c06cS(r.URL.Host),
-		Scheme: r.URL.Scheme, Query: c06cSorted(r.URL.Query()), Headers: c06cSorted(r.Header)}
+		Scheme: r.URL.Scheme, Query: c06cSorted(r.URL.Query()), Headers: c06cSorted(r.Header), QueryErr: qe != nil}
 }
 
 func c06cErrClass(err error) string {
@@ -260,6 +264,14 @@ func c06cExec(raw json.RawMessage) interface{} {
 			u.RawQuery += "&zz=1"
 		}
 		t2.URL = &u
+	case "query-unparsed": // pairs that url.Query() drops: they must not ride along unsigned
+		u := *t2.URL
+		if u.RawQuery == "" {
+			u.RawQuery = "zz=1;y=2"
+		} else {
+			u.RawQuery += "&zz=1;y=%zz"
+		}
+		t2.URL = &u
 	case "header":
 		for k := range t2.Header {
 			if k != "Authorization" && !s.ignoredHeaders[k] {
@@ -341,7 +353,7 @@ func c06cGen(r *verifh.Rand, i int) interface{} {
 	} else if r.Bool(1, 10) {
 		in.StoreSec = r.Pick("SECRE", "secret", "")
 	}
-	in.Tamper = r.Pick("body", "body", "method", "path", "query", "header", "unsigned-header", "none")
+	in.Tamper = r.Pick("body", "body", "method", "path", "query", "query-unparsed", "header", "unsigned-header", "none")
 	return in
 }
 
